@@ -354,12 +354,8 @@ open Evl.EncryptTree Evl.EncryptTag
 
 /-- a pointer tag keeps a value exactly when a struct tag would: the classification is public, or
 the operation in force for it is none -/
-theorem tagAction_keep_iff (t : TagInfo) : tagAction t = .keep ↔ action t = .keep := by
-  unfold tagAction action
-  by_cases h : t.cls = .pub ∨ t.op = .none
-  · simp [h]
-  · simp only [h, if_false]
-    cases hc : t.cls <;> cases ho : t.op <;> simp
+theorem tagAction_keep_iff (t : TagInfo) : tagAction t = .keep ↔ action t = .keep :=
+  Evl.EncryptTag.tagAction_keep_iff t
 
 /-- ... so a pointer tag that keeps its value names it public or is overridden to none (`tag_secure`) -/
 theorem pointer_tag_secure (t : PTag) (ov : Overrides) (h : tagAction (fromTagString t.tagString ov) = .keep) :
